@@ -162,6 +162,7 @@ def c09_jobs(tier):
             jobs.append(J("ast", "ZZ_C09_list", fill=fill, lvkind=2))
     for order in range(6):
         jobs.append(J("ast", "ZZ_C09_message", order=order))
+    jobs += [J("ast", "ZZ_C16_dupnames2", which=w, fresh=f) for w in (0, 1, 2, 3, 7, 8, 9, 10, 11, 12, 13) for f in (0, 1)]  # refused exactly as the constructor refuses (harness shared with C16)
     return jobs
 
 
@@ -193,6 +194,7 @@ def c16_jobs(tier):
     # a variable-free item of ANY size encodes: the header function never reports an error within the limit (harness shared with C13)
     jobs += [J("ast", "ZZ_C13_header", typ=t) for t in range(14)]
     jobs += [J("ast", "ZZ_C16_dupfill", which=w) for w in range(5)]
+    jobs += [J("ast", "ZZ_C16_dupnames2", which=w, fresh=f) for w in range(14) for f in (0, 1)]
     jobs += [J("ast", "ZZ_C16_message", kind=k, wrap=w) for k in range(10) for w in (0, 1, 2)]
     jobs += [J("ast", "ZZ_C16_ascii", k=k) for k in ([0, 1, 2, 3] if tier == "quick" else [0, 1, 2, 3, 4, 5])]
     return jobs
@@ -221,6 +223,7 @@ def c11_jobs(tier):
     jobs = [J("hsms", "ZZ_C11_alias", scn=i, h=0) for i in range(11)]
     jobs += [J("hsms", "ZZ_C11_alias", scn=12, h=0, kind=k, n=n) for k in range(14) for n in ((0, 1, 2) if k else (0,))]
     jobs += [J("hsms", "ZZ_C11_alias", scn=13, h=0)]
+    jobs += [J("hsms", "ZZ_C11_alias", scn=16, h=0, fuel=400_000_000)]
     jobs += [J("hsms", "ZZ_C11_alias", scn=14, h=0, kind=k) for k in range(7)]
     jobs += [J("hsms", "ZZ_C11_alias", scn=15, h=0, kind=k) for k in range(3)]
     jobs += [J("hsms", "ZZ_C11_alias", scn=11, h=h, timeout_s=(1500 if tier == "quick" else 7200)) for h in ([1, 2] if tier == "quick" else [1, 2, 3])]
@@ -246,6 +249,7 @@ def c05_jobs(tier):
                 for edge in ((1,) if tier == "quick" else (1, 2)):
                     jobs.append(J("sml", "ZZ_C05_int", typ=typ, cls=cls, k=0, neg=neg, edge=edge, **T))
     jobs += [J("sml", "ZZ_C05_follow", lit=i, **T) for i in range(8)]
+    jobs += [J("sml", "ZZ_C05_vars", form=f, **T) for f in range(3)]
     for typ in INT_TYPES + [1]:
         jobs.append(J("sml", "ZZ_C05_two", typ=typ, **T))
     for typ in ([1, 5, 12, 10] if tier == "quick" else INT_TYPES + [1]):
@@ -451,6 +455,7 @@ def c12_jobs(tier):
     for k in ([0, 1, 2] if tier == "quick" else [0, 1, 2, 3, 4]):
         for kind in range(4):
             jobs.append(J("ast", "ZZ_C12_varname_idx", k=k, kind=kind, timeout_s=(1500 if tier == "quick" else 7200)))
+    jobs += [J("ast", "ZZ_C16_dupnames2", which=w, fresh=f) for w in range(14) for f in (0, 1)]  # duplicate names through fills and next to ASCII variables (harness shared with C16)
     jobs += [J("ast", "ZZ_C12_ellipsis", which=i) for i in range(6)]
     jobs += [J("ast", "ZZ_C12_ellipsis", which=6, k=k) for k in ([0, 1, 2, 3] if tier == "quick" else [0, 1, 2, 3, 4, 5])]
     jobs += [J("ast", "ZZ_C12_ellipsis", which=7, k=k, order=o) for k in range(6) for o in range(5)]
